@@ -34,6 +34,7 @@ import (
 const (
 	c16SigF5        = "revoke-retry-skips-crl-rebuild"
 	c16SigNumber    = "crl-number-reused-after-failed-rebuild"
+	c16SigOcspStale = "ocsp-unknown-for-revoked-after-issuer-reimport"
 	c16ExpiryMargin = 3 * time.Second // obligations end this long before notAfter
 )
 
@@ -77,6 +78,14 @@ type c16Sys struct {
 	// numberRisk[issuer]: an injected fault interrupted a rebuild after at least one CRL had been stored but
 	// before crls/config (which holds the CRL number counters) was stored; cleared at the next new CRL seen.
 	numberRisk map[string]int // step of the interrupting fault; 0 = none
+
+	// issuer removal / re-import: revocations belong to the issuer CERTIFICATE, not to the issuer id
+	absent                                                                                   map[string]bool // issuer currently deleted
+	deletedEver                                                                              map[string]bool
+	reimportedAt                                                                             map[string]int  // step of the last re-import
+	fresh                                                                                    map[string]bool // re-imported, no CRL of the new issuer entry observed yet
+	crlNewAt                                                                                 map[string]int  // step at which a newly built CRL of this issuer was last observed
+	nIssuerDeleted, nIssuerReimported, nRevokedBeforeDelete, nRevokedWhileAbsent, nOcspStale int
 
 	step    int
 	history []string
@@ -124,7 +133,8 @@ func (s *c16Sys) mustWrite(what, path string, data map[string]any) *logical.Resp
 // c16Setup builds the mount: nIssuers in 1..3; issuer 0 and 1 are roots, issuer 2 is an intermediate of issuer 0.
 func c16Setup(rt *rapid.T, rec *verifx.Recorder, nIssuers int, autoRebuild bool) *c16Sys {
 	s := &c16Sys{rt: rt, rec: rec, fs: &vxFaultStorage{Storage: &logical.InmemStorage{}}, issuerCert: map[string]*x509.Certificate{},
-		bySerial: map[string]*c16Cert{}, lastNum: map[string]*big.Int{}, lastRaw: map[string][]byte{}, numberRisk: map[string]int{}, expiry: "72h"}
+		bySerial: map[string]*c16Cert{}, lastNum: map[string]*big.Int{}, lastRaw: map[string][]byte{}, numberRisk: map[string]int{}, expiry: "72h",
+		absent: map[string]bool{}, deletedEver: map[string]bool{}, reimportedAt: map[string]int{}, fresh: map[string]bool{}, crlNewAt: map[string]int{}}
 	b, err := vxBackend(s.fs, time.Hour, 24*time.Hour)
 	if err != nil {
 		rt.Fatalf("harness: backend: %v", err)
@@ -219,6 +229,18 @@ func (s *c16Sys) ocspStatus(c *c16Cert, post bool, hash crypto.Hash) (int, error
 		return 0, err
 	}
 	body, _ := resp.Data[logical.HTTPRawBody].([]byte)
+	// an "unknown" answer is signed by the mount's default issuer (documented), any other by the issuer asked about
+	if loose, lerr := ocsp.ParseResponse(body, nil); lerr == nil && loose.Status == ocsp.Unknown && loose.Certificate == nil {
+		if s.def != c.issuer {
+			if loose.SerialNumber == nil || loose.SerialNumber.Cmp(c.cert.SerialNumber) != 0 {
+				return 0, fmt.Errorf("OCSP response: unknown-status answer is about another serial")
+			}
+			if verr := loose.CheckSignatureFrom(s.issuerCert[s.def]); verr != nil {
+				return 0, fmt.Errorf("OCSP response: unknown-status answer not signed by the default issuer: %w", verr)
+			}
+			return loose.Status, nil
+		}
+	}
 	parsed, err := ocsp.ParseResponseForCert(body, c.cert, iss)
 	if err != nil {
 		return 0, fmt.Errorf("OCSP response: %w", err)
@@ -226,13 +248,26 @@ func (s *c16Sys) ocspStatus(c *c16Cert, post bool, hash crypto.Hash) (int, error
 	return parsed.Status, nil
 }
 
+func (s *c16Sys) present() []string {
+	var out []string
+	for _, n := range s.issuers {
+		if !s.absent[n] {
+			out = append(out, n)
+		}
+	}
+	return out
+}
+
 // check compares everything the API serves with the model. It runs after every action.
 func (s *c16Sys) check() {
 	now := time.Now()
 	// ---- CRLs
-	for _, name := range s.issuers {
+	for _, name := range s.present() {
 		crl, raw := s.fetchCRL("issuer/"+name+"/crl", "crl")
 		if crl == nil {
+			if s.fresh[name] {
+				continue // re-imported and no CRL built for the new issuer entry yet
+			}
 			s.violation("no-crl-served", "issuer/%s/crl serves no CRL", name)
 			continue
 		}
@@ -251,6 +286,11 @@ func (s *c16Sys) check() {
 			continue
 		}
 		newBuild := false // the first observation of a CRL says nothing about when it was built
+		if s.fresh[name] {
+			// ... except after a delete + re-import: the old issuer entry's CRL was removed, so whatever is
+			// served for the new entry was built after the re-import
+			newBuild, s.fresh[name] = true, false
+		}
 		if s.lastRaw[name] != nil && !bytes.Equal(raw, s.lastRaw[name]) {
 			newBuild = true
 			if crl.Number.Cmp(s.lastNum[name]) <= 0 {
@@ -266,6 +306,9 @@ func (s *c16Sys) check() {
 			}
 		}
 		s.lastRaw[name], s.lastNum[name] = raw, crl.Number
+		if newBuild {
+			s.crlNewAt[name] = s.step
+		}
 		if crl.ThisUpdate.After(now.Add(2*time.Second)) || crl.NextUpdate.Before(now) {
 			s.violation("crl-validity-window", "issuer %s: thisUpdate %s / nextUpdate %s do not bracket now %s", name, crl.ThisUpdate, crl.NextUpdate, now)
 		}
@@ -280,6 +323,12 @@ func (s *c16Sys) check() {
 			switch {
 			case c == nil:
 				s.violation("unknown-serial-on-crl", "issuer %s: CRL lists serial %x which this history never issued", name, e.SerialNumber)
+			case c.issuer != name && (s.absent[c.issuer] || s.deletedEver[c.issuer] && s.crlNewAt[name] < s.reimportedAt[c.issuer]):
+				// documented: revoked certificates whose issuer is unknown to the mount are put on the default
+				// issuer's CRL; a CRL built while the issuer was missing may still be the one served
+				if !c.attempted {
+					s.violation("unrevoked-serial-on-crl", "serial %s (issuer %s, deleted) is on the CRL of %s although no revocation was ever requested", c.serial, c.issuer, name)
+				}
 			case c.issuer != name:
 				s.violation("serial-on-wrong-issuer-crl", "serial %s was issued by %s but is listed on the CRL of %s", c.serial, c.issuer, name)
 			case !c.attempted:
@@ -313,6 +362,8 @@ func (s *c16Sys) check() {
 				if c.faultAfterRecord {
 					sig = c16SigF5
 					s.nF5++
+				} else if s.deletedEver[c.issuer] {
+					sig = "revoked-serial-missing-from-crl-after-issuer-reimport"
 				}
 				c.must = false // if the signature is a listed finding the search goes on; the obligation returns with the next rebuild
 				s.violation(sig, "serial %s (issuer %s) was reported revoked (auto_rebuild=%v) but the CRL served now for %s (number %s, %d entries) does not list it; fault-after-record=%v",
@@ -348,12 +399,21 @@ func (s *c16Sys) check() {
 		if !c.revoked && c.attempted {
 			continue // a failed revoke may or may not have taken effect
 		}
+		if s.absent[c.issuer] {
+			continue // no issuer in the mount can sign an OCSP response for this certificate
+		}
 		st, err := s.ocspStatus(c, (i+s.step)%2 == 0, []crypto.Hash{crypto.SHA1, crypto.SHA256}[(i+s.step/2)%2])
 		if err != nil {
 			if strings.HasPrefix(err.Error(), "harness:") {
 				s.rt.Fatalf("%v", err)
 			}
 			s.violation("ocsp-error", "OCSP for %s: %v", c.serial, err)
+			continue
+		}
+		if c.revoked && st == ocsp.Unknown && s.deletedEver[c.issuer] {
+			// the issuer certificate is present again (new issuer id); the revocation entry still names the old id
+			s.nOcspStale++
+			s.violation(c16SigOcspStale, "OCSP status of %s (issuer %s, deleted and re-imported) is unknown after a successful revoke although the issuer is present with its key (crl disabled=%v, auto_rebuild=%v)", c.serial, c.issuer, s.disabled, s.autoRebuild)
 			continue
 		}
 		if c.revoked && st != ocsp.Revoked {
@@ -368,7 +428,7 @@ func (s *c16Sys) check() {
 // ---- actions
 
 func (s *c16Sys) issue(role string) {
-	issuer := rapid.SampledFrom(s.issuers).Draw(s.rt, "issuer")
+	issuer := rapid.SampledFrom(s.present()).Draw(s.rt, "issuer")
 	resp, err := s.write("issuer/"+issuer+"/issue/"+role, map[string]any{"common_name": fmt.Sprintf("c%d.example.com", len(s.certs))})
 	if err != nil {
 		s.rt.Fatalf("harness: issue: %v", err)
@@ -387,6 +447,9 @@ func (s *c16Sys) pick(label string, pred func(*c16Cert) bool) *c16Cert {
 	var cand []*c16Cert
 	now := time.Now()
 	for _, c := range s.certs {
+		if !c.stored && s.absent[c.issuer] {
+			continue // documented: an unstored certificate of a removed issuer cannot be revoked until the CA is re-imported
+		}
 		if c.alive(now) && (pred == nil || pred(c)) {
 			cand = append(cand, c)
 		}
@@ -421,6 +484,9 @@ func (s *c16Sys) noteSuccess(c *c16Cert, resp *logical.Response, how string) {
 	}
 	if !c.revoked {
 		c.revoked, c.revTime = true, rtime
+		if s.absent[c.issuer] {
+			s.nRevokedWhileAbsent++
+		}
 	}
 	if how == "cert" {
 		c.stored = true
@@ -646,10 +712,10 @@ func (s *c16Sys) actTidy() {
 }
 
 func (s *c16Sys) actDefault() {
-	if len(s.issuers) < 2 {
+	if len(s.present()) < 2 {
 		s.rt.Skip("single issuer")
 	}
-	d := rapid.SampledFrom(s.issuers).Draw(s.rt, "default")
+	d := rapid.SampledFrom(s.present()).Draw(s.rt, "default")
 	_, err := s.write("config/issuers", map[string]any{"default": d})
 	s.logf("config/issuers default=%s -> err=%v", d, err)
 	if err != nil {
@@ -657,6 +723,95 @@ func (s *c16Sys) actDefault() {
 		return
 	}
 	s.def = d
+}
+
+// actDeleteIssuer removes an issuer entry (its key stays in the mount). At least one issuer stays; if the
+// default is removed another present issuer is made the default.
+func (s *c16Sys) actDeleteIssuer() {
+	pr := s.present()
+	if len(pr) < 2 {
+		s.rt.Skip("would remove the last issuer")
+	}
+	x := rapid.SampledFrom(pr).Draw(s.rt, "issuerToDelete")
+	_, err := vxReq(s.b, s.fs, logical.DeleteOperation, "issuer/"+x, nil)
+	if err != nil {
+		s.violation("issuer-delete-failed", "deleting issuer %s failed: %v", x, err)
+		return
+	}
+	s.absent[x], s.deletedEver[x] = true, true
+	delete(s.lastRaw, x)
+	delete(s.lastNum, x)
+	s.numberRisk[x] = 0
+	s.nIssuerDeleted++
+	nrev := 0
+	now := time.Now()
+	for _, c := range s.certs {
+		if c.issuer == x && c.revoked && c.alive(now) {
+			nrev++
+		}
+	}
+	s.nRevokedBeforeDelete += nrev
+	s.logf("delete issuer %s (revoked unexpired certs of it: %d)", x, nrev)
+	if s.def == x {
+		d := s.present()[0]
+		if _, err := s.write("config/issuers", map[string]any{"default": d}); err != nil {
+			s.violation("config-issuers-failed", "setting the default issuer to %s failed: %v", d, err)
+			return
+		}
+		s.def = d
+		s.logf("  default was deleted -> default=%s", d)
+	}
+}
+
+// actReimportIssuer imports the certificate of a deleted issuer again (the key is still in the mount): a
+// new issuer id for the same certificate. From the first CRL built for it, every revocation of its
+// certificates that was reported successful must be listed again.
+func (s *c16Sys) actReimportIssuer() {
+	var gone []string
+	for _, n := range s.issuers {
+		if s.absent[n] {
+			gone = append(gone, n)
+		}
+	}
+	if len(gone) == 0 {
+		s.rt.Skip("no deleted issuer")
+	}
+	x := rapid.SampledFrom(gone).Draw(s.rt, "issuerToReimport")
+	makeDefault := rapid.Bool().Draw(s.rt, "makeDefaultAgain")
+	resp, err := s.write("issuers/import/bundle", map[string]any{"pem_bundle": vxCertPEM(s.issuerCert[x])})
+	if err != nil {
+		s.violation("issuer-import-failed", "importing the certificate of %s again failed: %v", x, err)
+		return
+	}
+	ids, _ := resp.Data["imported_issuers"].([]string)
+	if len(ids) != 1 {
+		s.rt.Fatalf("harness: re-import of %s: imported_issuers=%v existing=%v", x, resp.Data["imported_issuers"], resp.Data["existing_issuers"])
+	}
+	if _, err := s.write("issuer/"+ids[0], map[string]any{"issuer_name": x}); err != nil {
+		s.rt.Fatalf("harness: naming re-imported issuer: %v", err)
+	}
+	r, err := s.read("issuer/" + x)
+	if err != nil || r == nil || fmt.Sprint(r.Data["key_id"]) == "" || r.Data["key_id"] == nil {
+		s.rt.Fatalf("harness: re-imported issuer %s has no key (err=%v)", x, err)
+	}
+	s.absent[x], s.fresh[x], s.reimportedAt[x] = false, true, s.step
+	s.nIssuerReimported++
+	now := time.Now()
+	n := 0
+	for _, c := range s.certs {
+		if c.issuer == x && c.revoked && c.alive(now) {
+			c.must = true // whatever CRL the re-imported issuer serves was built after the re-import
+			n++
+		}
+	}
+	s.logf("re-import issuer %s (new id; revoked unexpired certs of it: %d) makeDefault=%v", x, n, makeDefault)
+	if makeDefault {
+		if _, err := s.write("config/issuers", map[string]any{"default": x}); err != nil {
+			s.violation("config-issuers-failed", "setting the default issuer to %s failed: %v", x, err)
+			return
+		}
+		s.def = x
+	}
 }
 
 func (s *c16Sys) actConfig() {
@@ -744,6 +899,10 @@ func c16Run(t *testing.T, rec *verifx.Recorder) {
 			rec.Class("crash-restarts", int64(s.nCrash))
 			rec.Class("rebuilds-interrupted-between-crl-and-counter", int64(s.nInterruptedRebuild))
 			rec.Class("restarts", int64(s.nRestart))
+			rec.Class("issuer-deleted", int64(s.nIssuerDeleted))
+			rec.Class("issuer-reimported", int64(s.nIssuerReimported))
+			rec.Class("revoked-before-delete", int64(s.nRevokedBeforeDelete))
+			rec.Class("revoked-while-issuer-absent", int64(s.nRevokedWhileAbsent))
 			rec.Class("rotates", int64(s.nRotate))
 			rec.Class("tidies", int64(s.nTidy))
 			if s.nFaultRevoke == 0 {
@@ -773,6 +932,9 @@ func c16Run(t *testing.T, rec *verifx.Recorder) {
 			"j-tidy":           step(s.actTidy),
 			"k-default-issuer": step(s.actDefault),
 			"l-periodic":       step(s.actPeriodic),
+			"d-delete-issuer":  step(s.actDeleteIssuer),
+			"d-reimport":       step(s.actReimportIssuer),
+			"d-reimport2":      step(s.actReimportIssuer),
 			"m-issue-short": step(func() {
 				if !slow {
 					rt.Skip("not a slow case")
